@@ -181,7 +181,8 @@ CLAIMS = {
              'original text and ids, for texts of ANY length, by induction over the records), c08_string / threadname / '
              'lookup_with_unrelated (the same with ANY merge of unrelated same-thread records between the chunks: the decoders read '
              'the records of their own id only - genuine defect F28 repaired, fix commit 105d2ca; F27 second path by identity, '
-             '0109ea4), c08_once / c08_once_single (through '
+             '0109ea4; c08_window_with_unrelated / c08_string_end_to_end: the same through the pairing specification after any history, '
+             'composed with the reassembly), c08_once / c08_once_single (through '
              'the pairing machine, after ANY history: no trace until the END record, which delivers the whole run), '
              'c08_sweep_paths_in_order + c08_path_shown (every path-taking syscall row shows lookups in lookup order); closed under '
              'the global context. Correspondence on every boundary length with multi-byte characters; once-ness and syscall paths '
